@@ -6,6 +6,24 @@ ROOT = os.path.dirname(os.path.dirname(os.path.abspath(__file__)))
 
 # id -> (category, technique, level text, level note, design ref)
 CHECKS = {
+ "C05": ("exploration",
+   "stateful proptest histories with a harness-owned sender schedule; counter model on the spec-decoded wire",
+   "Histories of 3..25 ops for send limits 1..4 (established via config, HandshakeAck::max_send, or the peer's Receive Maximum lower/higher than the configured value): create / poll / drop sink futures in any order, "
+   "'send again on completion' loops, acknowledgements singly or batched, QoS 2 release and receipt drops, stalled-peer episodes. After every op: unacknowledged QoS>0 PUBLISH frames on the wire <= limit, and credit() == limit - outstanding after settles.",
+   "Trusted: as C03; only the awaiting send APIs are exercised, as the statement requires.",
+   "DESIGN.md section 3 C05"),
+ "C13": ("exploration",
+   "stateful proptest histories weighted to cancellations and back-pressure toggles; liveness judged at deterministic quiescence",
+   "Same op set as C05 weighted towards dropping parked / woken futures and stall toggles, with a peer that acknowledges everything correctly; final phase lifts the stall, releases receipts, acknowledges everything, polls every survivor until nothing changes; "
+   "then no future may be pending while slots are free and back-pressure is off, none may have failed, the connection must be alive.",
+   "Trusted: as C03. 'Forever' is decidable because the harness owns transport and schedule.",
+   "DESIGN.md section 3 C13"),
+ "C14": ("exploration",
+   "bounded-exhaustive schedule enumeration (release permutations x drop masks x batching x interleavings) with a per-id QoS 2 exchange model",
+   "All schedules for 2..3 (thorough 4) concurrent exactly-once sends: every release order, every release/drop mask, PUBRECs and PUBCOMPs singly or batched, polls in between, pipelined or phased, QoS 1 traffic before/after/in between, "
+   "four roles. Each send gets the receipt of its own id, no UnexpectedRelease, exactly one PUBREL per id (also on drop), a release completes exactly with its own PUBCOMP, credit() returns to the limit.",
+   "Trusted: as C03; conforming peer (answers in order of receipt).",
+   "DESIGN.md section 3 C14"),
  "C12": ("exploration",
    "stateful proptest bursts against gated handlers with an adaptive conforming/exceeding scripted peer; overlap/byte/liveness oracle",
    "Generated bursts of publishes (QoS 0/1/2, sizes around the byte limit, some streamed), PINGREQ and gated SUBSCRIBE, released in generated order, over the configuration grid max_receive 0..4 x "
